@@ -106,3 +106,8 @@ BOUNDS = {
 }
 OUTSIDE = ["pulls on a source that already signalled exhaustion are not events (CPython's own tools differ among themselves there)", "lengths above the bound", "aggregations other than all/any (they consume everything)"]
 NONTRIVIAL_RULE = ">=2 source items and >=3 logged events on the path"
+
+MANIFEST = {
+    "text": 'Event logs (pulls, end-of-source detections, callable invocations with arguments, yields) of the asyncstdlib tool over instrumented async sources and of the real stdlib tool over instrumented sync sources are compared after a symbolic number of consumer steps. Nothing is claimed outside the bounds listed in the evidence file.',
+    "note": "Trusted: CrossHair 0.0.110 (with short-circuiting off and a refined callable() model), z3 5.1.0, the harness oracles. Pulls on a source that already signalled exhaustion are not events (CPython's own tools differ there); parameter ranges small so that the real C tools are the oracle.",
+}
